@@ -67,7 +67,7 @@ class Controller:
         self.idle_hooks = []  # callables invoked at idle before gate choice; return True if acted
         self.nidle = 0
         self.replay = list(script) if script else None
-        self.delay = {}  # gate-name prefix -> rank (larger = later), for delay-rank schedules
+        self.delay: list[str] = []  # gate-name substrings released only when nothing else waits
 
     async def gate(self, name: str):
         # make names unique
@@ -96,6 +96,10 @@ class Controller:
         names = [n for n in self.order if n in self.waiting and not n.startswith("idle")]
         if not names:
             names = [n for n in self.order if n in self.waiting]
+        if self.delay:
+            fast = [n for n in names if not any(d in n for d in self.delay)]
+            if fast:
+                names = fast
         name = None
         if self.replay:
             want = self.replay[0]
